@@ -22,10 +22,15 @@ def ipfix_inserts():
     return [s(999, []), s(999, [7]), s(999, [1, 2, 3, 4, 5]), s(40000, list(range(64))),
             s(4, []), s(17, [0, 0]), s(255, [0, 9, 0, 8, 1, 1, 1, 1, 2]), s(100, list(range(1, 34))),
             s(300, [10, 0, 0, 1, 9, 9, 9, 9]), s(300, [10, 0, 0, 1, 9, 9, 9, 9, 10, 0, 0, 2, 8, 8, 8, 8]),
+            s(301, [1, 2, 3, 4, 5, 6, 7, 8]), s(302, [1, 2, 3, 4, 5, 6, 7, 8, 9, 10, 11, 12]),
             s(999, NESTED), s(300, NESTED)]
 
-TBAD_MSG = [0, 10, 0, 32, 0, 0, 0, 0, 0, 0, 0, 0, 0, 0, 0, 0,      # header
-            0, 2, 0, 16, 1, 44, 0, 2, 0, 8, 0, 4, 39, 15, 0, 4]    # template 300: elements 8 and 9999
+# templates that make a data set undecodable: 300 uses an element missing from the model; 301 and 302 describe records
+# longer than any datagram (field lengths adding up to 65539 and 65540: beyond 16 bits)
+TBAD_MSG = [0, 10, 0, 56, 0, 0, 0, 0, 0, 0, 0, 0, 0, 0, 0, 0,      # header
+            0, 2, 0, 40, 1, 44, 0, 2, 0, 8, 0, 4, 39, 15, 0, 4,    # template 300: elements 8 and 9999
+            1, 45, 0, 2, 0, 8, 0, 4, 39, 15, 255, 255,             # template 301: (8, 4), (9999, 65535)
+            1, 46, 0, 2, 39, 14, 128, 0, 39, 15, 128, 4]           # template 302: (9998, 32768), (9999, 32772)
 
 
 def judge(ctx, proto, job, r, want_n):
@@ -65,6 +70,15 @@ def judge(ctx, proto, job, r, want_n):
                                   "prefix of the complete datagram's (%d records, complete: %d)"
                                   % (proto, k, len(cuts) - 1, o["n"], whole["n"]),
                                   {"job": job, "position": pos, "inserted": job["inserts"][ui], "cut": k}, key="trunc-fabricates")
+    for pi, o in zip(job.get("pinserts") or [], r.get("pins") or []):
+        ctx.count(key + ["early-data", pi["pos"], pi["set"][:2]], nontrivial=full["n"] > 0)
+        if o["st"] == "panic":
+            ctx.violation("%s decoder panicked: %s" % (proto, o["panic"]), {"job": job, "inserted": pi})
+        elif o["st"] not in ("ok", "nonfatal") or o["rd"] != full["rd"]:
+            ctx.violation("%s: a data set for template %d inserted at set position %d - before the set of the same message that "
+                          "announces that template, so undecodable there - changed the records of the other sets (%s, %d records "
+                          "instead of %d)" % (proto, pi["set"][0] * 256 + pi["set"][1], pi["pos"], o["st"], o["n"], full["n"]),
+                          {"job": job, "inserted": pi}, key="early-data")
     for k, o in enumerate(r["trunc"]):
         ctx.count(key + ["trunc", k], nontrivial=full["n"] > 0)
         if o["st"] == "panic":
@@ -82,9 +96,44 @@ def v9_inserts():
     return [s(999, []), s(999, [7]), s(999, [1, 2, 3, 4, 5]), s(40000, list(range(64))),
             s(4, []), s(2, [7, 7, 7, 7, 7, 7, 7, 7]), s(3, [0, 0]), s(255, [0, 9, 0, 8, 1, 1, 1, 1, 2]), s(100, list(range(1, 34))),
             s(300, [10, 0, 0, 1, 9, 9, 9, 9]), s(300, [10, 0, 0, 1, 9, 9, 9, 9, 10, 0, 0, 2, 8, 8, 8, 8]),
+            s(301, [1, 2, 3, 4, 5, 6, 7, 8]), s(302, [1, 2, 3, 4, 5, 6, 7, 8, 9, 10, 11, 12]),
             s(999, NESTED), s(300, NESTED)]
 
-TBAD_MSG_V9 = [0, 9, 0, 1] + [0] * 16 + [0, 0, 0, 16, 1, 44, 0, 2, 0, 8, 0, 4, 39, 15, 0, 4]
+TBAD_MSG_V9 = [0, 9, 0, 3] + [0] * 16 + [0, 0, 0, 40, 1, 44, 0, 2, 0, 8, 0, 4, 39, 15, 0, 4,
+                                       1, 45, 0, 2, 0, 8, 0, 4, 39, 15, 255, 255, 1, 46, 0, 2, 39, 14, 128, 0, 39, 15, 128, 4]
+
+
+def early_data(proto, c):
+    """data for a template id BEFORE the set of the same message that announces it (unknown at that point, hence
+    undecodable): inserted at every position up to that template set"""
+    tplids = (2, 3) if proto == "ipfix" else (0, 1)
+    known = set()
+    for m in c["hist"]:
+        known |= template_ids(proto, m[16:] if proto == "ipfix" else m[20:], tplids)
+    out = []
+    for pos, st in enumerate(c["sets"]):
+        sid = st[0] * 256 + st[1]
+        if sid in tplids:
+            for tid in sorted(template_ids(proto, st, tplids) - known):
+                body = [9, 8, 7, 6, 5, 4, 3, 2, 1, 0, 1, 2]
+                dset = [tid >> 8, tid & 255, 0, 4 + len(body)] + body
+                for p in range(pos + 1):
+                    out.append({"pos": p, "set": dset})
+            known |= template_ids(proto, st, tplids)
+    return out
+
+
+def template_ids(proto, octets, tplids):
+    """ids announced by the template sets found in a run of sets (generator output: well-formed)"""
+    ids, p = set(), 0
+    while p + 4 <= len(octets):
+        sid, ln = octets[p] * 256 + octets[p + 1], octets[p + 2] * 256 + octets[p + 3]
+        if ln < 4:
+            break
+        if sid in tplids and p + 8 <= len(octets):
+            ids.add(octets[p + 4] * 256 + octets[p + 5])      # the generator puts one template record per set
+        p += ln
+    return ids
 
 
 def part(ctx, proto, thorough):
@@ -103,7 +152,8 @@ def part(ctx, proto, thorough):
             continue
         jobs.append({"exp": exps[ci % len(exps)], "hist": [tbad] + c["hist"], "hdr": codec.enc_hdr(proto, c["hdr"]),
                      "sets": c["sets"], "inserts": ins, "truncate": True,
-                     "trunc_inserts": [len(ins) - 2, len(ins) - 1] if (thorough or len(jobs) % 5 == 0) else []})
+                     "trunc_inserts": [len(ins) - 2, len(ins) - 1] if (thorough or len(jobs) % 5 == 0) else [],
+                     "pinserts": early_data(proto, c)})
         wants.append(len(c["want"]))
     res = flowjobs.run_jobs(ctx, drv, codec.P[proto]["variants"], jobs, env={"VERIF_ELEMENTS_DIR": eldir}, tag="v_" + proto, timeout=5000)
     for job, r, w in zip(jobs, res, wants):
